@@ -39,7 +39,7 @@ import (
 // ---------------------------------------------------------------------------
 
 type SWOp struct {
-	Kind  string `json:"kind"` // start | once | stop | advance | join | leave | offline | online | failsend | healsend | restart | settle
+	Kind  string `json:"kind"` // start | once | stop | advance | join | leave | offline | online | failsend | healsend | swapheal | restart | settle
 	Keys  []int  `json:"keys,omitempty"`
 	Mins  int    `json:"mins,omitempty"`
 	Peers []int  `json:"peers,omitempty"`
@@ -219,6 +219,33 @@ func runSWInBubble(t *testing.T, sc *SWScenario) []sim.Ev {
 		e.keys = append(e.keys, h)
 		e.keyIdx[string(h)] = i
 	}
+	// the library reports where its swarm exploration stops early (two lookups in a row without a new peer):
+	// logged with the keys under the explored prefix, whose recipients are then judged under the known finding
+	sweepSetHook(func(point, prefix string) {
+		if point != "explore:gaveup" {
+			return
+		}
+		under := []int{}
+		for i := range e.keys {
+			kid := kadOf(e.keys[i])
+			match := true
+			for b := 0; b < len(prefix); b++ {
+				if (kid[b/8]>>(7-uint(b%8)))&1 != prefix[b]-'0' {
+					match = false
+					break
+				}
+			}
+			if match {
+				under = append(under, i+1)
+			}
+		}
+		e.mu.Lock()
+		if e.begun {
+			e.tr.Add("GaveUp", "prefix", prefix, "keys", sim.Ints(under), "ts", e.now())
+		}
+		e.mu.Unlock()
+	})
+	defer sweepSetHook(nil)
 	dstore := dssync.MutexWrap(ds.NewMapDatastore())
 	ksDS := dssync.MutexWrap(ds.NewMapDatastore())
 	var ks keystore.Keystore
@@ -338,6 +365,21 @@ func runSWInBubble(t *testing.T, sc *SWScenario) []sim.Ev {
 			synctest.Wait()
 			e.mu.Lock()
 			e.sendBad = false
+			e.tr.Add("HealSend", "ts", e.now())
+			e.mu.Unlock()
+		case "swapheal":
+			// The unreachable swarm is replaced by a disjoint reachable one in one instant. Every attempt
+			// begun before this instant allocated unreachable peers only and fails as a whole (sends to peers
+			// that left fail too), every attempt begun afterwards succeeds as a whole: no advertisement is
+			// half delivered, so what the library owes afterwards is unambiguous.
+			synctest.Wait()
+			e.mu.Lock()
+			e.swarm = map[int]bool{}
+			for _, p := range op.Peers {
+				e.swarm[p] = true
+			}
+			e.sendBad = false
+			e.tr.Add("Swarm", "swarm", swarmList(), "nearest", nearestOf(), "ts", e.now())
 			e.tr.Add("HealSend", "ts", e.now())
 			e.mu.Unlock()
 		case "restart":
@@ -472,6 +514,55 @@ func genSWGrowth(r *rand.Rand) *SWScenario {
 	return sc
 }
 
+// genSWOutage: provider records cannot be delivered to anybody for a while although lookups work (every
+// peer of the swarm is unreachable for ADD_PROVIDER); keys are handed over and reprovides fall due in that
+// window; then the swarm is replaced by a reachable one. Everything owed has to be delivered afterwards.
+func genSWOutage(r *rand.Rand) *SWScenario {
+	sc := &SWScenario{Seed: r.Int63(), R: 2 + r.Intn(3), NPeers: 16 + r.Intn(40), NKeys: 6 + r.Intn(20), Interval: []int{60, 120}[r.Intn(2)], Workers: 2 + r.Intn(4)}
+	sc.K = sc.R
+	sc.MaxDelay = sc.Interval / 4
+	half := sc.NPeers / 2
+	second := []int{}
+	for i := 1; i <= sc.NPeers; i++ {
+		if i <= half {
+			sc.Initial = append(sc.Initial, i)
+		} else {
+			second = append(second, i)
+		}
+	}
+	var before, during, once []int
+	for k := 1; k <= sc.NKeys; k++ {
+		switch r.Intn(4) {
+		case 0:
+			before = append(before, k)
+		case 1, 2:
+			during = append(during, k)
+		default:
+			once = append(once, k)
+		}
+	}
+	sc.Ops = []SWOp{{Kind: "advance", Mins: 5}, {Kind: "settle"}}
+	if len(before) > 0 {
+		sc.Ops = append(sc.Ops, SWOp{Kind: "start", Keys: before}, SWOp{Kind: "advance", Mins: []int{3, sc.Interval - 3, sc.Interval + 20}[r.Intn(3)]}, SWOp{Kind: "settle"})
+	}
+	sc.Ops = append(sc.Ops, SWOp{Kind: "failsend"})
+	if len(during) > 0 {
+		sc.Ops = append(sc.Ops, SWOp{Kind: "start", Keys: during})
+	}
+	if len(once) > 0 {
+		if r.Intn(2) == 0 {
+			sc.Ops = append(sc.Ops, SWOp{Kind: "advance", Mins: 1})
+		}
+		sc.Ops = append(sc.Ops, SWOp{Kind: "once", Keys: once})
+	}
+	sc.Ops = append(sc.Ops, SWOp{Kind: "advance", Mins: []int{1, 4, 12}[r.Intn(3)]}, SWOp{Kind: "swapheal", Peers: second},
+		SWOp{Kind: "advance", Mins: 12}, SWOp{Kind: "settle"})
+	for i := 0; i < 3; i++ {
+		sc.Ops = append(sc.Ops, SWOp{Kind: "advance", Mins: sc.Interval/2 + r.Intn(sc.Interval)}, SWOp{Kind: "settle"})
+	}
+	return sc
+}
+
 func TestSweepChild(t *testing.T) {
 	childMain(t, func(idx int, raw json.RawMessage, progress func(any)) any {
 		var sc SWScenario
@@ -510,6 +601,8 @@ func TestSweep(t *testing.T) {
 		for i := 0; i < n; i++ {
 			if i%5 == 4 {
 				scs = append(scs, genSWGrowth(r))
+			} else if i%5 == 2 && os.Getenv("VERIF_SW_NOOUTAGE") == "" {
+				scs = append(scs, genSWOutage(r))
 			} else {
 				scs = append(scs, genSWScenario(r))
 			}
